@@ -43,6 +43,8 @@ pub enum MainStep {
     AwaitFinal(String),
     /// wait until every peer reached its goal (or can no longer progress)
     AwaitPeers,
+    /// the same, but give up after this much virtual time
+    AwaitPeersFor { ms: u64 },
     /// wait until peer `i` has executed at least `pc` instructions
     AwaitPeerAt { peer: usize, pc: usize },
     Wait { ms: u64 },
@@ -154,6 +156,16 @@ impl Environment for Scenario {
                 }
                 MainStep::AwaitPeers => {
                     if self.peers_settled() {
+                        self.main_pc += 1;
+                        progressed = true;
+                    } else {
+                        break;
+                    }
+                }
+                MainStep::AwaitPeersFor { ms } => {
+                    let deadline = *self.main_wake.get_or_insert(ctx.now_ns + ms * 1_000_000);
+                    if self.peers_settled() || ctx.now_ns >= deadline {
+                        self.main_wake = None;
                         self.main_pc += 1;
                         progressed = true;
                     } else {
